@@ -233,6 +233,39 @@ def case_operator(col, p):
     col.distinct('nontrivial', ('op', ns, p['labelled'], folded, p['input'], tuple(p.get('units', ()))))
 
 
+def case_scramble_history(col, p):
+    """scramble_pop_ids on a SEQUENCE of spectra in one process (same number of populations and pooled sample size, different splits):
+    every result must equal the exact re-dealing of the pooled spectrum, whatever was scrambled before"""
+    import dadi
+    n = 0
+    for seq in p['sequences']:
+        for k, ns in enumerate(seq):
+            ns = tuple(ns)
+            shape = tuple(x + 1 for x in ns)
+            N = sum(ns)
+            data = (1.0 + (np.arange(int(np.prod(shape))) * 5 % 13).reshape(shape)) / 8.0
+            fs = dadi.Spectrum(data)
+            out = fs.scramble_pop_ids()
+            col.tick(transitions=1)
+            n += 1
+            idxs = list(np.ndindex(*shape))
+            pooled = [Fraction(0)] * (N + 1)
+            for idx in idxs[1:-1]:
+                pooled[sum(idx)] += Fraction(float(data[idx]))
+            worst = 0.0
+            got = np.asarray(out.data)
+            for idx in idxs[1:-1]:
+                w = Fraction(1)
+                for n_k, d_k in zip(ns, idx):
+                    w *= comb(n_k, d_k)
+                ex = float(w / comb(N, sum(idx)) * pooled[sum(idx)])
+                worst = max(worst, abs(got[idx] - ex) / max(abs(ex), 1e-300))
+            if not worst <= 1e-11:
+                col.violation('C10:scramble_pop_ids:result_depends_on_history', dict(p, sequences=[seq], position=k), {'maxrel': worst})
+    col.tick(states=n, traces=n)
+    col.distinct('nontrivial', ('scramble_history', len(p['sequences']), tuple(map(tuple, p['sequences'][0]))))
+
+
 def case_bfs(col, p):
     import dadi
     ns = tuple(p['ns'])
@@ -305,7 +338,7 @@ def case_bfs(col, p):
     col.distinct('nontrivial', ('bfs', ns))
 
 
-CASES = {'operator': case_operator, 'bfs': case_bfs}
+CASES = {'operator': case_operator, 'bfs': case_bfs, 'scramble_history': case_scramble_history}
 
 
 def _dispatch(col, case):
@@ -343,6 +376,12 @@ def run(ctx):
                     'shape); folded unit bases only for d<=3; thorough enumerates every unit spectrum')
     for ns in [(2, 2), (2, 3), (2, 2, 2), (1, 2, 3), (3, 2, 2)] + ([(2, 1, 2, 2)] if not ctx.quick else [(1, 1, 2, 1)]):
         cases.append({'kind': 'bfs', 'ns': ns, 'depth': 2 if (ctx.quick or len(ns) > 3) else 3, 'seed': ctx.seed})
+    # call histories of scramble_pop_ids: every ordered pair (thorough: triple) of splits of the same pooled sample
+    fams = [[(2, 6), (6, 2), (4, 4), (3, 5), (1, 7)], [(3, 4, 5), (5, 3, 4), (4, 4, 4), (2, 5, 5), (4, 5, 3)], [(2, 2, 3, 1), (1, 3, 2, 2), (2, 2, 2, 2)]]
+    for fam in fams:
+        seqs = [list(s_) for s_ in itertools.permutations(fam, 2 if ctx.quick else 3)]
+        for lo in range(0, len(seqs), 10):
+            cases.append({'kind': 'scramble_history', 'sequences': seqs[lo:lo + 10], 'ns': fam[0]})
     from mc.evidence import Collector
     a, b = Collector(), Collector()
     _dispatch(a, cases[1]); _dispatch(b, cases[1])
